@@ -2,7 +2,7 @@
 # Runs every check against one behaviour-preserving refactoring (scratch worktree): any
 # report is a false alarm. usage: tools/refactor_check.sh <patch.diff> <label>
 set -u
-PATCH=$1; LABEL=$2
+PATCH=$(readlink -f "$1"); LABEL=${2:-$(basename $(dirname "$PATCH"))}
 WT=/tmp/wt/refac-$$; SV=/tmp/verifscratch-refac-$$
 trap 'git -C /repo worktree remove --force $WT 2>/dev/null; rm -rf $SV' EXIT
 git -C /repo worktree add -q --detach $WT HEAD || exit 2
